@@ -67,5 +67,6 @@ PROP = dict(
         E("regress", "A", "./c19", "TestC19Regress", 1, 1),
         R("splitwords", "A", "./c19", "TestC19SplitWords", (40000, 2), (600000, 16)),
         R("addtoquery", "B", "./analysis/app", "TestC19AddToQuery", (30000, 2), (450000, 16)),
+        R("listorder", "B", "./storage/db", "TestC19ListOrder", (400, 2), (6000, 8)),
     ],
 )
